@@ -562,6 +562,10 @@ def standard_host_keys(key_algs, rsa_bits=3072, ca='ed25519', ca_bits=3072, cert
             out[a] = wire.rsa_cert_tree(cert_host_bits or rsa_bits, ca_tree)
         elif a == 'ssh-ed25519-cert-v01@openssh.com':
             out[a] = wire.ed25519_cert_tree(ca_tree)
+        elif a == 'sk-ssh-ed25519@openssh.com':
+            out[a] = wire.sk_ed25519_blob_tree()
+        elif a == 'sk-ssh-ed25519-cert-v01@openssh.com':
+            out[a] = wire.sk_ed25519_cert_tree(ca_tree)
     return out
 
 
